@@ -20,6 +20,7 @@ func main() {
 	tier := flag.String("tier", "quick", "quick|thorough")
 	only := flag.String("rule", "", "evaluate only obligations whose rule id has this prefix (replay)")
 	noEvidence := flag.Bool("no-evidence", false, "do not write evidence (used on scratch variants)")
+	variant := flag.String("variant", "", "development aid: a scratch copy of the repository whose changed files are analysed as an overlay of -repo")
 	flag.Parse()
 	args := flag.Args()
 	if len(args) < 1 {
@@ -35,7 +36,7 @@ func main() {
 		census(*repo)
 		return
 	case "all":
-		os.Exit(runAll(*repo, *verif, *tier))
+		os.Exit(runAll(*repo, *variant, *verif, *tier))
 	case "list":
 		for _, id := range rules.IDs() {
 			fmt.Println(id)
@@ -66,15 +67,22 @@ func main() {
 		}
 		os.Exit(rules.RunMutants(*repo, *verif, which, *tier))
 	}
+	if *variant != "" {
+		variantDir = *variant
+		*noEvidence = true
+	}
 	os.Exit(run(*repo, *verif, *tier, args[0], *only, seed, *noEvidence))
 }
+
+// variantDir: set by -variant (development aid, never by a registered command).
+var variantDir string
 
 func run(repo, verif, tier, prop, only string, seed int64, noEvidence bool) (code int) {
 	if rules.Lookup(prop) == nil {
 		fmt.Fprintln(os.Stderr, "unknown property", prop)
 		return 2
 	}
-	rep, err := rules.RunProperty(repo, tier, prop, seed)
+	rep, err := rules.RunPropertyVariant(repo, variantDir, tier, prop, seed)
 	if err != nil {
 		fmt.Fprintln(os.Stderr, "iocvet: cannot analyse:", err)
 		return 2
@@ -113,8 +121,8 @@ func run(repo, verif, tier, prop, only string, seed int64, noEvidence bool) (cod
 
 // runAll loads the program once and evaluates every property on it (development aid for scratch variants):
 // prints one line per unheld obligation that is not a listed known finding.
-func runAll(repo, verif, tier string) int {
-	ctx, err := core.Load(repo, tier)
+func runAll(repo, variant, verif, tier string) int {
+	ctx, err := core.LoadVariant(repo, variant, tier)
 	if err != nil {
 		fmt.Fprintln(os.Stderr, "iocvet: cannot analyse:", err)
 		return 2
